@@ -52,23 +52,25 @@ func (iter *iteratorSingle) InitCloser(closer io.Closer) error {
 
 // Next returns ErrIteratorDone if the iterator is done.
 func (iter *iteratorSingle) Next() error {
-	err := iter.sc.Next()
-	if err != nil {
-		iter.op = 0
-		iter.k = nil
-		iter.v = nil
+	// A loop, not a recursion: a run of deletions can be as long as the
+	// segment, and the stack of a goroutine is limited.
+	for {
+		err := iter.sc.Next()
+		if err != nil {
+			iter.op = 0
+			iter.k = nil
+			iter.v = nil
 
-		// we DO want to return ErrIteratorDone here
-		return err
+			// we DO want to return ErrIteratorDone here
+			return err
+		}
+
+		iter.op, iter.k, iter.v = iter.sc.Current()
+		if iter.op != OperationDel ||
+			iter.iteratorOptions.IncludeDeletions {
+			return nil
+		}
 	}
-
-	iter.op, iter.k, iter.v = iter.sc.Current()
-	if iter.op != OperationDel ||
-		iter.iteratorOptions.IncludeDeletions {
-		return nil
-	}
-
-	return iter.Next()
 }
 
 func (iter *iteratorSingle) SeekTo(seekToKey []byte) error {
